@@ -1,6 +1,24 @@
 package main
 
 // C06 - arrays and maps are values: no aliasing at any size (spec/Containers.tla).
+//
+// TLC explores Containers.tla (all operation sequences over three bindings, one run per kind of container) and emits every
+// transition with its history and the predicted value of every binding; each is written as a grol session (one REPL input
+// per operation, a probe input after each) and the probes are compared with the prediction and with the previous probe.
+// What the harness adds to a behaviour of the model is its source form only (contForm): how the initial value and the
+// copies are written, and which numbers the keys of a map are (key chains, below).
+//
+// Families added after seeding round 5 (seeds C06-10/11/12, all in the model):
+//   - Retype: an element is replaced by its twin (3 <-> 3.0: prints the same, is another value). Histories with a Retype
+//     print a second probe line, sig(a) sig(b) sig(c), the kinds of the elements as told by a user function that has been
+//     applied to the earlier values of the bindings: the result of a function follows the value of its argument at every
+//     size (a function-call cache keyed by the printed form of small containers answers for the wrong container);
+//   - Frames: y = x through a function that makes an inner call with the same parameter names (`..` or named; recursion or a
+//     closure made by the call) before returning its own parameter: a parameter is a binding of one call's frame only;
+//   - Insert / DelAbsent (maps): index assignment under a new key (front, middle, end: the map grows, across the
+//     threshold too) and del of a key that is absent but next to a present one;
+//   - key chains: the keys are the plain small numbers or integers and floats one apart around +-2^31, 2^32, 2^53 and the
+//     ends of the int64 range, so that "next to" means "told apart only by an exact comparison".
 
 import (
 	"encoding/json"
@@ -13,7 +31,7 @@ import (
 
 func init() {
 	props["C06"] = propDef{check: checkC06, replay: replayC06,
-		rule: "case = one TLC-explored transition of Containers.tla (witness history + operation) instantiated as a grol session for arrays or maps, all bindings printed after every statement and compared with the value-level prediction; distinct by source text; non-trivial when at least two bindings are non-empty"}
+		rule: "case = one TLC-explored transition of Containers.tla (witness history + operation) instantiated as a grol session for arrays or maps (source forms and, for maps, the key chain chosen by a hash of the transition number and the seed), all bindings - and after a Retype the kinds of their elements as seen by a user function - printed after every statement and compared with the value-level prediction; distinct by source text; non-trivial when at least two bindings are non-empty"}
 }
 
 type contOp struct {
